@@ -367,6 +367,75 @@ fn generations_scenario(ty: Ty, reset: bool, observed: bool, policy: u8) -> Verd
     e3::finish(v)
 }
 
+// ------------------------------------------------------------------ E4: real time passes
+
+/// Real runtime, real TCP, real time: the peer pipelines five messages and then does not read for 2.5 s while the
+/// socket tries to send it several MiB (its sends block on the peer's full buffers and are given up by the
+/// application after 4 s). Whatever happens to those sends, the five messages the peer sent must all be received,
+/// in order. (The controlled executor has no clock: a library that starts a timer inside an operation cannot be
+/// explored there; this family lets wall-clock time pass instead. OS schedules are not enumerated.)
+async fn stalled_reader_case(ty: Ty) -> Vec<(String, String)> {
+    use crate::e4::{self, RawStream};
+    use std::time::Duration;
+    let what = format!("{} over TCP: the peer pipelines 5 messages, then does not read for 2.5 s while the socket sends it 24 MiB", ty.name());
+    let mut sock = AnySocket::new_unmonitored(ty, None);
+    let ep = match sock.bind(&e4::bind_spec(e4::Tr::Tcp4)).await {
+        Ok(e) => e,
+        Err(e) => return vec![("machinery/bind".into(), format!("{}: {}", what, e))],
+    };
+    let mut peer = match RawStream::connect(&ep).await {
+        Ok(p) => p,
+        Err(e) => return vec![("machinery/connect".into(), format!("{}: {}", what, e))],
+    };
+    if e4::raw_handshake(&mut peer, ty.peer_type(), Some(b"P")).await.is_err() {
+        return vec![("machinery/handshake".into(), what)];
+    }
+    let mut all = Vec::new();
+    for i in 0..5 {
+        all.extend(rc::encode_message(&[format!("req-{}", i).into_bytes()]));
+    }
+    let _ = peer.write_all(&all).await;
+    // the socket receives the first one, then tries to push 24 MiB at the peer, which is not reading
+    let mut got: Vec<String> = Vec::new();
+    let first = tokio::time::timeout(e4::HORIZON, sock.recv()).await;
+    if let Ok(Ok(m)) = &first {
+        got.push(String::from_utf8_lossy(crate::e1::frames_of(m).last().unwrap()).to_string());
+    }
+    let big = rc::pattern(1 << 20, 3, 0);
+    let t0 = std::time::Instant::now();
+    for _ in 0..24 {
+        let m = if ty == Ty::Router { vec![b"P".to_vec(), big.clone()] } else { vec![big.clone()] };
+        let left = Duration::from_millis(4000).saturating_sub(t0.elapsed());
+        if left.is_zero() {
+            break;
+        }
+        // errors and timeouts of these sends are not judged
+        let _ = tokio::time::timeout(left, sock.send(crate::e1::msg(&m))).await;
+    }
+    // 2.5 s (at least) have passed with the peer not reading; it now drains in the background
+    let drain = tokio::spawn(async move {
+        let mut buf = vec![0u8; 1 << 16];
+        while let Ok(Ok(n)) = tokio::time::timeout(Duration::from_secs(8), peer.read_some(&mut buf)).await {
+            if n == 0 {
+                break;
+            }
+        }
+    });
+    for _ in 0..4 {
+        match tokio::time::timeout(e4::HORIZON, sock.recv()).await {
+            Ok(Ok(m)) => got.push(String::from_utf8_lossy(crate::e1::frames_of(&m).last().unwrap()).to_string()),
+            _ => break,
+        }
+    }
+    drain.abort();
+    let want: Vec<String> = (0..5).map(|i| format!("req-{}", i)).collect();
+    let _ = sock.close().await;
+    if got != want {
+        return vec![(format!("stalled-reader/messages-of-a-connected-peer-not-received/{}", ty.name()), format!("{}: recv returned {:?}, the peer had sent {:?} before it stopped reading", what, got, want))];
+    }
+    Vec::new()
+}
+
 fn params_json(p: &Params) -> serde_json::Value {
     json!({"type": p.ty.name(), "peers": p.peers, "msgs": p.msgs, "truncated_peer": p.truncated_peer, "split": p.split, "policy": p.policy, "coop": p.coop})
 }
@@ -469,6 +538,17 @@ pub fn run(tier: Tier, replay: Option<String>) -> i32 {
         if v["replay"]["engine"] == "E2" {
             return e2::replay_file(&v);
         }
+        if v["replay"]["engine"] == "E4" {
+            let Some(ty) = v["replay"]["type"].as_str().and_then(Ty::from_name) else { return 2 };
+            let viol = crate::e4::block_on_deadline(2, crate::e4::CASE_DEADLINE, move || async move { stalled_reader_case(ty).await }).unwrap_or_else(|| vec![("runtime-hung".to_string(), "the case did not come back".to_string())]);
+            for (c, m) in &viol {
+                println!("replay: VIOLATION {}: {}", c, m);
+            }
+            if viol.is_empty() {
+                println!("replay: holds");
+            }
+            return if viol.is_empty() { 0 } else { 1 };
+        }
         return replay_socket(&v);
     }
     let thorough = tier == Tier::Thorough;
@@ -476,11 +556,37 @@ pub fn run(tier: Tier, replay: Option<String>) -> i32 {
     // socket level
     let jobs = socket_jobs(tier);
     e3::run_jobs_into(&mut ck, jobs, false);
+    // real time (E4 add-on; the two types whose sends can block on the peer they also receive from)
+    let cases: Vec<Ty> = vec![Ty::Router, Ty::Dealer];
+    let handles: Vec<_> = cases
+        .iter()
+        .map(|ty| {
+            let ty = *ty;
+            std::thread::spawn(move || (ty, crate::e4::block_on_deadline(2, crate::e4::CASE_DEADLINE, move || async move { stalled_reader_case(ty).await })))
+        })
+        .collect();
+    for h in handles {
+        if let Ok((ty, r)) = h.join() {
+            match r {
+                Some(viol) => {
+                    for (c, m) in viol {
+                        if c.starts_with("machinery/") {
+                            ck.machinery_error(m);
+                        } else {
+                            ck.finding(c, m, json!({"engine":"E4","kind":"stalled-reader","type":ty.name()}));
+                        }
+                    }
+                }
+                None => ck.finding(format!("runtime-hung/{}", ty.name()), format!("{}: the stalled-reader case did not come back within {} s", ty.name(), crate::e4::CASE_DEADLINE.as_secs()), json!({"engine":"E4","kind":"stalled-reader","type":ty.name()})),
+            }
+        }
+    }
+    ck.cov("e4_stalled_reader_cases", cases.len() as u64);
     let tr = ck.coverage.get("transitions").and_then(|v| v.as_u64()).unwrap_or(0);
     let ex = ck.coverage.get("e3_executions").and_then(|v| v.as_u64()).unwrap_or(0);
     ck.cov("traces_validated_against_impl", tr + ex);
     ck.cov("exhaustive", ck.coverage.get("e2_all_fixpoints").and_then(|v| v.as_bool()).unwrap_or(false) && ck.coverage.get("e3_scenarios_capped").and_then(|v| v.as_u64()) == Some(0));
-    ck.cov("explanation", "E2: breadth-first search over event histories of the REAL FairQueue (see C06 for the event alphabet); on every transition: a delivered item is the next undelivered item of its stream (no duplicate, no loss, right key), an item handed out by a stream reaches the receiver, a live stream is never dropped, a closed stream's arrived items are delivered before it disappears. E3: 6 receiving socket types x peer/message/cut variants through the real attach+recv under every schedule within the deviation bound (scheduling order, library yield points, deliveries landing inside pipe reads): per peer, the projection of the recv results equals the reference decode of what that peer wrote (after the type's envelope rule), the message cut by a disconnect never surfaces, and nothing complete is left undelivered at quiescence with a recv pending. Generations family: a peer with an announced identity lives three lives (clean close or reset between them, observed by the receiver before the next life starts or not) next to a peer that stays: every message of every life is delivered, in order, once. Scale family (not exhaustive in n): the same oracle with 17 / 65 / 130 (thorough 257, 520) peers x 2 messages under the default schedules.");
+    ck.cov("explanation", "E2: breadth-first search over event histories of the REAL FairQueue (see C06 for the event alphabet); on every transition: a delivered item is the next undelivered item of its stream (no duplicate, no loss, right key), an item handed out by a stream reaches the receiver, a live stream is never dropped, a closed stream's arrived items are delivered before it disappears. E3: 6 receiving socket types x peer/message/cut variants through the real attach+recv under every schedule within the deviation bound (scheduling order, library yield points, deliveries landing inside pipe reads): per peer, the projection of the recv results equals the reference decode of what that peer wrote (after the type's envelope rule), the message cut by a disconnect never surfaces, and nothing complete is left undelivered at quiescence with a recv pending. Generations family: a peer with an announced identity lives three lives (clean close or reset between them, observed by the receiver before the next life starts or not) next to a peer that stays: every message of every life is delivered, in order, once. Real-time add-on (E4, ROUTER and DEALER over TCP): the peer pipelines five messages and does not read for 2.5 s while the socket's sends to it block; all five are received. Scale family (not exhaustive in n): the same oracle with 17 / 65 / 130 (thorough 257, 520) peers x 2 messages under the default schedules.");
     ck.assume("see C06 for the state-merging argument of E2");
     ck.assume("one poll between two yield points is atomic in E3; parallelism inside a poll is covered at the fair-queue level by E2's window events");
     ck.conclude()
